@@ -1,3 +1,98 @@
+/-
+  C16 — POSIX-TZ rule strings: the parser accepts exactly the strings of the documented grammar
+  (`Cctz.Spec.IsPosixSpec`, a declarative decomposition of the byte string) and assigns them the
+  documented meaning; every field the rule evaluation reads is determined by an accepted string.
+-/
 import Cctz.Model.Posix
+import Cctz.Spec.PosixGrammar
+import Cctz.Proofs.PosixParse
+
 namespace Cctz.C16
+open Cctz Cctz.Bytes
+
+/-- the parser is the grammar: it accepts `s` with result `r` iff `s` is a rule string meaning `r`
+(this also ties the bounds extracted from the C++, `Gen.posix_*`, to the documented ones) -/
+def parse_iff_statement : Prop :=
+  ∀ (s : Bytes) (r : Posix.TimeZone), Posix.parsePosixSpec s = some r ↔ Spec.IsPosixSpec s r
+
+/-- an accepted string leaves no field unset that is read afterwards: the standard offset always,
+and with a dst abbreviation also the dst offset and both transitions (date and time) -/
+def parse_determined_statement : Prop :=
+  ∀ s r, Posix.parsePosixSpec s = some r →
+    r.stdOffset.isSome ∧
+    (r.dstAbbr ≠ [] → r.dstOffset.isSome ∧ r.dstStart.date.isSome ∧ r.dstStart.time.isSome ∧
+      r.dstEnd.date.isSome ∧ r.dstEnd.time.isSome)
+
+/-- documented meanings on concrete rule strings: `M`, `J` and zero-based dates, the 02:00:00
+default time, a negative time, quoted abbreviations, the default and an explicit dst offset, the
+reversed sign of offsets; and some rejected strings -/
+def defaults_statement : Prop :=
+  Posix.parsePosixSpec (ofString "EST5EDT,M3.2.0,M11.1.0") =
+    some { stdAbbr := ofString "EST", stdOffset := some (-18000), dstAbbr := ofString "EDT",
+           dstOffset := some (-14400),
+           dstStart := ⟨some ⟨.M, 3, 2, 0⟩, some 7200⟩, dstEnd := ⟨some ⟨.M, 11, 1, 0⟩, some 7200⟩ } ∧
+  Posix.parsePosixSpec (ofString "CET-1CEST,J60,J300/3") =
+    some { stdAbbr := ofString "CET", stdOffset := some 3600, dstAbbr := ofString "CEST",
+           dstOffset := some 7200,
+           dstStart := ⟨some ⟨.J, 60, 0, 0⟩, some 7200⟩, dstEnd := ⟨some ⟨.J, 300, 0, 0⟩, some 10800⟩ } ∧
+  Posix.parsePosixSpec (ofString "EST5EDT4,0/0,J365/25") =
+    some { stdAbbr := ofString "EST", stdOffset := some (-18000), dstAbbr := ofString "EDT",
+           dstOffset := some (-14400),
+           dstStart := ⟨some ⟨.N, 0, 0, 0⟩, some 0⟩, dstEnd := ⟨some ⟨.J, 365, 0, 0⟩, some 90000⟩ } ∧
+  Posix.parsePosixSpec (ofString "<-03>3<-02>,M3.5.0/-2,M10.5.0/-1") =
+    some { stdAbbr := ofString "-03", stdOffset := some (-10800), dstAbbr := ofString "-02",
+           dstOffset := some (-7200),
+           dstStart := ⟨some ⟨.M, 3, 5, 0⟩, some (-7200)⟩, dstEnd := ⟨some ⟨.M, 10, 5, 0⟩, some (-3600)⟩ } ∧
+  Posix.parsePosixSpec (ofString "NST3:30NDT1:30:15,M3.2.0/0:01,M11.1.0/+0:01:02") =
+    some { stdAbbr := ofString "NST", stdOffset := some (-12600), dstAbbr := ofString "NDT",
+           dstOffset := some (-5415),
+           dstStart := ⟨some ⟨.M, 3, 2, 0⟩, some 60⟩, dstEnd := ⟨some ⟨.M, 11, 1, 0⟩, some 62⟩ } ∧
+  Posix.parsePosixSpec (ofString "<+0530>-5:30") =
+    some { stdAbbr := ofString "+0530", stdOffset := some 19800 } ∧
+  Posix.parsePosixSpec (ofString "UTC0") = some { stdAbbr := ofString "UTC", stdOffset := some 0 } ∧
+  Posix.parsePosixSpec (ofString ":EST5") = none ∧
+  Posix.parsePosixSpec (ofString "ES5") = none ∧
+  Posix.parsePosixSpec (ofString "EST25") = none ∧
+  Posix.parsePosixSpec (ofString "EST5EDT") = none ∧
+  Posix.parsePosixSpec (ofString "EST5EDT,M3.2.0") = none ∧
+  Posix.parsePosixSpec (ofString "EST5EDT,M13.2.0,M11.1.0") = none ∧
+  Posix.parsePosixSpec (ofString "EST5EDT,J0,J300") = none ∧
+  Posix.parsePosixSpec (ofString "EST5EDT,M3.2.0/168,M11.1.0") = none ∧
+  Posix.parsePosixSpec (ofString "EST5EDT,M3.2.0,M11.1.0 ") = none ∧
+  Posix.parsePosixSpec (ofString "EST5:DT,M3.2.0,M11.1.0") = none ∧
+  Posix.parsePosixSpec (ofString "EST5:00:DT,M3.2.0,M11.1.0") = none ∧
+  Posix.parsePosixSpec (ofString "EST5" ++ [0]) = none
+
+theorem parse_iff : parse_iff_statement :=
+  fun s r => ⟨Posix.parse_sound s r, Posix.parse_complete s r⟩
+
+theorem parse_determined : parse_determined_statement := by
+  intro s r h
+  obtain ⟨_, _, ta, to, rest, stdAbbr, v, _, _, _, hr⟩ := Posix.parse_sound s r h
+  rcases hr with ⟨_, rfl⟩ | ⟨dstAbbr, dstOff, st, en, ⟨_, _, _, _, d1, t1, d2, t2, _, _, _, _, _, rfl, rfl⟩, rfl⟩
+  · exact ⟨rfl, fun hne => absurd rfl hne⟩
+  · exact ⟨rfl, fun _ => ⟨rfl, rfl, rfl, rfl, rfl⟩⟩
+
+theorem defaults : defaults_statement := by
+  unfold defaults_statement
+  decide +kernel
+
+/-- A `:` directly after a complete `h:m:s` offset is not part of the offset: it starts the
+(unquoted) dst abbreviation.  (After `h` or `h:m` a `:` commits to minutes / seconds, see the two
+rejected strings in `defaults_statement`.) -/
+theorem colon_after_seconds_example :
+    Posix.parsePosixSpec (ofString "EST5:00:00:DT,M3.2.0,M11.1.0") =
+      some { stdAbbr := ofString "EST", stdOffset := some (-18000), dstAbbr := ofString ":DT",
+             dstOffset := some (-14400),
+             dstStart := ⟨some ⟨.M, 3, 2, 0⟩, some 7200⟩, dstEnd := ⟨some ⟨.M, 11, 1, 0⟩, some 7200⟩ } := by
+  decide +kernel
+
+/-- the grammar relation is inhabited on a non-trivial string (and the hypothesis of
+`parse_determined` is satisfiable, with a dst part) -/
+example : Spec.IsPosixSpec (ofString "EST5EDT,M3.2.0,M11.1.0")
+    { stdAbbr := ofString "EST", stdOffset := some (-18000), dstAbbr := ofString "EDT",
+      dstOffset := some (-14400),
+      dstStart := ⟨some ⟨.M, 3, 2, 0⟩, some 7200⟩, dstEnd := ⟨some ⟨.M, 11, 1, 0⟩, some 7200⟩ } :=
+  (parse_iff _ _).mp (by decide +kernel)
+
 end Cctz.C16
